@@ -82,6 +82,7 @@ type PathRun struct {
 	violated  bool
 	funcs     map[string]bool
 	chanID    int
+	nAsserts  int
 }
 
 type branchKey struct {
@@ -265,6 +266,7 @@ func (p *PathRun) inputVars() []*Term {
 
 // Assert checks c on this path. On failure records a violation (or known finding).
 func (p *PathRun) Assert(c *Term, msg string, th *Thread) {
+	p.nAsserts++
 	if c.IsTrue() {
 		return
 	}
